@@ -1,6 +1,6 @@
 //! C01 — decoded structure equals what the file encodes (round trip against the generating model).
 use crate::encode::{encode, Plan};
-use crate::gen::{build_plan, build_sprite, GenCfg, Tape};
+use crate::gen::{build_plan_padded as build_plan, build_sprite, GenCfg, Tape};
 use crate::model::*;
 use crate::runner::*;
 use asefile::{AnimationDirection, AsepriteFile, ExternalFileId, LayerType, PixelFormat};
